@@ -39,6 +39,8 @@ structure SvcFile where
   exec : Bytes
   parses : Bool := true           -- does `_dbus_shell_parse_argv` accept the Exec line
   runs : Bool := true             -- can the program be executed at all
+  refuse : Option Bytes := none   -- the error with which a start is refused before anything is parsed or started: a bus with a
+                                  -- <servicehelper> refuses a service file without User= (Spawn.FileInvalid)
   deriving Inhabited
 
 structure ABus where
@@ -108,7 +110,8 @@ def activateService (files : List SvcFile) (maxPending : Nat) (x : ATx) (c : Con
           match findAct x.acts n with
           | some _ => ({ x with acts := x.acts.map (joinAct { conn := c, msg := m, auto := auto } n) }, none)
           | none =>
-            if !f.parses then (x, some ERR_INVALID_ARGS)
+            if f.refuse.isSome then (x, f.refuse)
+            else if !f.parses then (x, some ERR_INVALID_ARGS)
             else if f.runs then
               ({ x with acts := x.acts ++ [{ name := n, exec := f.exec, entries := [{ conn := c, msg := m, auto := auto }],
                                              child := some x.nspawn }],
